@@ -203,6 +203,12 @@ impl Gen {
         if enabled.is_empty() {
             enabled = profile.weights.clone();
         }
+        // swarm: a third of the hostile-client runs are mostly ordinary histories (states that
+        // take several well-formed calls to build) with only an occasional hostile argument
+        let mut profile = profile;
+        if profile.hostile >= 30 && rng.chance(1, 3) {
+            profile.hostile = 8;
+        }
         Gen { names, max_depth, profile, enabled, run_tag, step: 0, respelled: 0, hostile_used: 0 }
     }
 
@@ -743,6 +749,21 @@ impl Gen {
                 Op::CopyBDeferred { s, d, calls: vec![], cwd }
             },
             "symlink" => {
+                // now and then close a cycle: a link placed where a dangling link points, pointing back
+                if rng.chance(1, 12) {
+                    let dangling: Vec<(String, String)> = m
+                        .t
+                        .nodes
+                        .iter()
+                        .filter(|(_, n)| n.kind == crate::tree::Kind::Link)
+                        .filter_map(|(k, n)| n.target.clone().map(|t| (k.clone(), t)))
+                        .filter(|(_, t)| m.k(t) == K::Missing && parent(t).map(|p| m.k(&p) == K::Dir).unwrap_or(false))
+                        .collect();
+                    if !dangling.is_empty() {
+                        let (lk, tg) = rng.pick(&dangling[..]).clone();
+                        return Op::Symlink { l: tg, t: lk };
+                    }
+                }
                 let l = self.p_create(m, rng);
                 let tcanon = if rng.chance(3, 4) { self.p_target(m, rng, None) } else { self.random_path(rng) };
                 // target spelling: absolute, or relative to the link's directory
